@@ -317,6 +317,23 @@ func runRelational(c *core.Ctx) {
 			missing = append(missing, "foreign key constraint "+fk+" on users")
 		}
 	}
+	// foreign keys that live in OTHER tables than the owner's: has-many / has-one children passed in the
+	// same call as User (always true here), and the join table of the many2many
+	wantFK := map[string][]string{"user_langs": {"user_id->users", "lang_code->langs"}}
+	if withPet {
+		wantFK["pets"] = []string{"user_id->users"}
+	}
+	if withProf {
+		wantFK["profs"] = []string{"user_id->users"}
+	}
+	for _, t := range []string{"pets", "profs", "user_langs"} {
+		have := fkList(h, t)
+		for _, fk := range wantFK[t] {
+			if !have[fk] {
+				missing = append(missing, "foreign key "+t+"."+fk)
+			}
+		}
+	}
 	if withPet {
 		tx, _ := h.SQL.Begin()
 		_, e := tx.Exec("INSERT INTO pets(user_id,name,kind,age) VALUES (1,'p','dog',-4)")
